@@ -51,6 +51,7 @@ def cases(draw):
     }
     if draw(st.booleans()):
         make_sleepy(case)
+    case["shape"] = draw(st.sampled_from(["abs", "bare"]))
     return case
 
 
@@ -263,10 +264,22 @@ class Injector:
 
 
 def scenario(case, fault, stats=None, tmp=None):
+    cwd = os.getcwd()
+    try:
+        return _scenario(case, fault, stats, tmp)
+    finally:
+        os.chdir(cwd)
+
+
+def _scenario(case, fault, stats=None, tmp=None):
     """fault: ('oserror', k) | ('denied', k) | ('concurrent', k, line) | ('none',). Returns #ops/#hook calls seen."""
     version, ext, flavour = case["version"], case["ext"], case["flavour"]
     path = os.path.join(tmp, f"net.{ext}")
     persist.restore(tmp, {})
+    if case.get("shape") == "bare":
+        # the application names the file relative to its working directory (the README does)
+        os.chdir(tmp)
+        path = f"net.{ext}"
     life = make(flavour, version, path)
     where = f"[{flavour}, {ext}, fault={fault}]"
     full_case = dict(case, fault=list(fault))
@@ -420,6 +433,8 @@ def draw_cases(n, seed_value):
     for flavour in ("threaded", "asyncio"):
         if out and not any(c["ext"] == "pickle" and c["flavour"] == flavour and c.get("wake") for c in out):
             out.append(make_sleepy(dict(out[-1], ext="pickle", flavour=flavour)))
+    if out and not any(c.get("shape") == "bare" for c in out):
+        out.append(dict(out[0], shape="bare"))
     have = {(c["ext"], c["flavour"]) for c in out}
     for ext in ("json", "pickle"):
         for flavour in ("threaded", "asyncio"):
@@ -442,7 +457,7 @@ def main(tier):
             run.stats.case(None, labels=("regression-replays",))
         except Violation as v:
             run.stats.violation(v.clause, v.case, f"[regression {os.path.basename(path)}] {v.detail}")
-    n = 8 if tier == "quick" else 64
+    n = 8 if tier == "quick" else 320
     todo = draw_cases(n, common.shard_seed(common.seed(), 0))
     for stats in common.pool_map(_one, todo):
         run.stats.merge(stats)
